@@ -490,7 +490,9 @@ def _read_healsparse_fits_file_and_degrade(filename, pixels, nside_out, reductio
             dtype_out = np.dtype(dtype_out)
             sparse_map_out = np.zeros((_pixels.size + 1)*nfine_per_cov_out,
                                       dtype=dtype_out)
-            sparse_map_out[primary] = sentinel_out
+            # Every field of an unobserved pixel is set to the sentinel, as in the in-memory degrade.
+            for key in dtype_out.names:
+                sparse_map_out[key] = sentinel_out
         elif (issubclass(dtype.type, np.integer) and (reduction in ['and', 'or'])):
             sentinel_out = sentinel
             dtype_out = dtype
